@@ -333,8 +333,63 @@ func TestVerifC15(t *testing.T) {
 	} else if m := lc.NearestMatch(syn["Syn-B.txt"]); m == nil || m.Name != "Syn-B" || m.Confidence != 1.0 {
 		what = fmt.Sprintf("synthetic Syn-B not found: %+v", m)
 	}
-	licenseclassifier.ReadLicenseFile = orig
 	o.verdict("C15", "synthetic", what == "", true, "synthetic", map[string]interface{}{"what": what})
+	// license files that leave nothing (or next to nothing) after normalisation — a title and a
+	// copyright line, blank lines, punctuation, a shebang line — anywhere in the list: "any set of
+	// license files" round-trips, and the licenses around them are still found
+	syn["Notice-Only.txt"] = "The MIT License\nCopyright 2019, Example Corp.\n"
+	syn["Blank.txt"] = "\n\n"
+	syn["Punct.txt"] = "--- *** ---\n"
+	syn["Shebang.txt"] = "#!/bin/sh\n"
+	syn["One.txt"] = "license\n"
+	for oi, files := range [][]string{
+		{"MIT.txt", "Notice-Only.txt", "ISC.txt"}, {"Notice-Only.txt", "MIT.txt", "ISC.txt"}, {"MIT.txt", "ISC.txt", "Notice-Only.txt"},
+		{"Blank.txt", "MIT.txt", "Punct.txt", "ISC.txt", "Shebang.txt"}, {"One.txt", "MIT.txt"}} {
+		id := fmt.Sprintf("emptyish%d", oi)
+		what := ""
+		var lc *licenseclassifier.License
+		var err error
+		pan, msg := catch(func() { lc, err = varchive(files) })
+		if pan {
+			what = "panic: " + msg
+		} else if err != nil {
+			what = "archive does not load: " + err.Error()
+		} else {
+			dc := vdirect(files)
+			for _, f := range []string{"MIT.txt", "ISC.txt"} {
+				has := false
+				for _, g := range files {
+					has = has || g == f
+				}
+				if !has || what != "" {
+					continue
+				}
+				txt := vread(f)
+				if m := lc.NearestMatch(txt); m == nil || m.Name != strings.TrimSuffix(f, ".txt") || m.Confidence != 1.0 {
+					what = fmt.Sprintf("%s not found by NearestMatch on its own text: %+v", f, m)
+				}
+				ws := strings.Fields(txt)
+				for j := range ws {
+					if j%19 == 7 {
+						ws[j] = "zzz"
+					}
+				}
+				q := strings.Join(ws, " ")
+				var wantM stringclassifier.Matches
+				for _, v := range dc.MultipleMatch(vnormalize(q)) {
+					if lc.WithinConfidenceThreshold(v.Confidence) {
+						wantM = append(wantM, v)
+					}
+				}
+				sort.Sort(wantM)
+				if got := lc.MultipleMatch(q, true); what == "" && vshow(got) != vshow(wantM) {
+					what = fmt.Sprintf("edited %s: archive-built MultipleMatch %s, directly built %s", f, vshow(got), vshow(wantM))
+				}
+			}
+		}
+		o.verdict("C15", id, what == "", true, id, map[string]interface{}{"what": what, "files": files})
+	}
+	licenseclassifier.ReadLicenseFile = orig
 	o.stat("C15", map[string]interface{}{"subsets": nsub, "queries_per_subset": nq, "skipped_near_go_diff_deadline": deadlineSkips})
 }
 
@@ -359,7 +414,17 @@ func vvariants(txt string) map[string]string {
 	for i, l := range lines {
 		hash[i] = "# " + l
 	}
+	pre := func(m string) string {
+		out := make([]string, len(lines))
+		for i, l := range lines {
+			out[i] = m + l
+		}
+		return strings.Join(out, "\n")
+	}
 	return map[string]string{
+		"bang":   pre("! "),
+		"semi":   pre("; "),
+		"dashes": pre("-- "),
 		"plain":  txt,
 		"upper":  strings.ToUpper(txt),
 		"lower":  strings.ToLower(txt),
@@ -387,7 +452,7 @@ func TestVerifC16(t *testing.T) {
 	vars := []string{"plain", "upper", "slash", "indent16"}
 	if vthorough() {
 		pick = all
-		vars = []string{"plain", "upper", "lower", "reflow", "spaced", "slash", "hash", "star", "indent16"}
+		vars = []string{"plain", "upper", "lower", "reflow", "spaced", "slash", "hash", "star", "indent16", "bang", "semi", "dashes"}
 	} else {
 		for len(pick) < 8 {
 			f := all[r.intn(len(all))]
@@ -402,6 +467,15 @@ func TestVerifC16(t *testing.T) {
 	for _, f := range pick {
 		for _, v := range vars {
 			jobs = append(jobs, job{f, v})
+		}
+	}
+	if !vthorough() {
+		// short texts and headers whose telling words stand on the first line, under every line-comment
+		// marker: a line lost or mangled at the top of the input costs them their name
+		for _, f := range []string{"AFL-2.1.header.txt", "MPL-2.0.header.txt", "Beerware.txt", "APSL-1.1.header.txt", "BSD-2-Clause-NetBSD.txt", "MPL-2.0-no-copyleft-exception.header.txt"} {
+			for _, v := range []string{"hash", "bang", "semi", "dashes", "slash"} {
+				jobs = append(jobs, job{f, v})
+			}
 		}
 	}
 	var wg sync.WaitGroup
